@@ -629,6 +629,85 @@ fn perm_subs(run: &Arc<Run>) -> Vec<Arc<dyn Sub>> {
             ));
         }
     }
+    // ---- permutations on CRAFTED inputs: for every MDS product of the permutation (14), every position and every
+    // word of the single-word alphabet, the input state is computed backwards (reference arithmetic) so that this
+    // product sees a state with that one non-zero word - the states on which its final reduction matters. The
+    // whole permutation must equal the reference in value, and its outputs must be in canonical form.
+    {
+        let cmax: u128 = if thorough { 64 } else { 12 };
+        let mut words: Vec<u64> = vec![];
+        for c in 1..=cmax {
+            for base in [(P64 + c - 1) / c, ((1u128 << 64) - 1) / c] {
+                for d in [-1i128, 0, 1] {
+                    let w = base as i128 + d;
+                    if w > 0 && (w as u128) < P64 {
+                        words.push(w as u64);
+                    }
+                }
+            }
+        }
+        words.sort();
+        words.dedup();
+        let nw = words.len() as u64;
+        for which in 0..2usize {
+            let name = ["rp64_256", "rpjive64_256"][which];
+            let words = words.clone();
+            let width = if which == 0 { 12usize } else { 8 };
+            subs.push(sub_t(
+                &format!("{name}.permutation.crafted_mds_inputs"),
+                14 * width as u64,
+                120,
+                true,
+                move |idx, out| {
+                    let spec: &RescueSpec = [&*RP64, &*RPJ][which];
+                    let (target, pos) = ((idx / width as u64) as usize, (idx % width as u64) as usize);
+                    for w in words.iter() {
+                        let mut u = vec![0u128; width];
+                        u[pos] = B64::from_mont(*w).as_int() as u128;
+                        let Some(input) = spec.preimage_for_mds_input(target, &u) else {
+                            out.violation(format!("HARNESS: {name}: no inverse MDS matrix"), json!({}));
+                            return;
+                        };
+                        let want = spec.permutation(&input);
+                        let got: Vec<B64> = if which == 0 {
+                            let mut s: [B64; 12] = core::array::from_fn(|i| B64::new(input[i] as u64));
+                            match pan::catch(|| {
+                                hashers::Rp64_256::apply_permutation(&mut s);
+                                s
+                            }) {
+                                Ok(s) => s.to_vec(),
+                                Err(p) => {
+                                    out.violation(format!("{name}: permutation panics ({})", p.class()), json!({"mds_product": target, "position": pos, "word": format!("{:#x}", w)}));
+                                    continue;
+                                },
+                            }
+                        } else {
+                            let mut s: [B64; 8] = core::array::from_fn(|i| B64::new(input[i] as u64));
+                            match pan::catch(|| {
+                                hashers::RpJive64_256::apply_permutation(&mut s);
+                                s
+                            }) {
+                                Ok(s) => s.to_vec(),
+                                Err(p) => {
+                                    out.violation(format!("{name}: permutation panics ({})", p.class()), json!({"mds_product": target, "position": pos, "word": format!("{:#x}", w)}));
+                                    continue;
+                                },
+                            }
+                        };
+                        let vals: Vec<u128> = got.iter().map(|x| x.as_int() as u128).collect();
+                        if vals != want {
+                            out.violation(format!("{name}: permutation differs from the reference round function on a crafted input"), json!({"mds_product": target, "position": pos, "word": format!("{:#x}", w)}));
+                        } else if got.iter().zip(want.iter()).any(|(g, v)| g.inner() as u128 >= P64 || *g != B64::new(*v as u64)) {
+                            out.violation(format!("{name}: permutation returns an element that is not in canonical form (== with the canonical element of the same value fails)"), json!({"mds_product": target, "position": pos, "word": format!("{:#x}", w)}));
+                        }
+                    }
+                    out.evals(nw - 1);
+                    out.nontrivial_n(nw);
+                },
+                move |idx| json!({"hasher": name, "mds_product": idx / width as u64, "position": idx % width as u64}),
+            ));
+        }
+    }
     // ---- full permutation against the reference round function
     let nperm: u64 = if thorough { 200_000 } else { 12_000 };
     for which in 0..3u64 {
